@@ -394,15 +394,28 @@ def generate(rng, run, tier):
                          'draw': 0, 'h': -1})
         elif nh and nq < 6:
             nq += 1
-            q = rng.choice(['is_bearable', 'is_bearable', 'die', 'decor_call', 'is_subhint', 'th_eq', 'th_le', 'th_is'])
+            q = rng.choice(['is_bearable', 'is_bearable', 'die', 'decor_call', 'is_subhint', 'th_eq', 'th_le', 'th_is',
+                            'th_is_bearable', 'th_die'])
             op = {'op': 'query', 'q': q, 'h': rng.randrange(nh), 'draw': rng.choice([0, 1, 2, 7])}
             if q in ('is_subhint', 'th_eq', 'th_le', 'th_is'):
                 op['h2'] = rng.randrange(nh)
             else:
                 op['x'] = gen_obj(rng, nslots)
+                # the optional public parameters of the query: a message prefix (few values, so that different queries
+                # share one) and a configuration
+                if q != 'decor_call' and q != 'th_is_bearable' and rng.random() < 0.4:
+                    op['pfx'] = rng.choice(PREFIXES)
+                if rng.random() < 0.3:
+                    op['conf'] = rng.randrange(1, len(QCONFS))
             if rng.random() < 0.3:
                 op['twice'] = True
             hist.append(op)
+            if op.get('pfx') is not None and rng.random() < 0.5:
+                # the same hint, prefix and configuration through another of the door entry points
+                op2 = dict(op, q=rng.choice([x for x in ('is_bearable', 'die', 'th_die') if x != q]), x=gen_obj(rng, nslots))
+                op2.pop('twice', None)
+                hist.append(op2)
+                nq += 1
         else:
             hist.append({'op': 'mkhint', 'h': nh, 'dsl': gen_hint(rng, nslots)})
             nh += 1
@@ -411,6 +424,8 @@ def generate(rng, run, tier):
 
 # ------------------------------------------------------------------ execution
 MODNAME = 'c14_user_mod'
+PREFIXES = ['P: ', 'P: ', 'is_bearable() ', 'die_if_unbearable() ', '']
+QCONFS = [None, {'is_color': False}, {'tower': True}, {'strategy': 'On'}, {'vt': 'valueerror'}]
 
 
 def _fresh_env():
@@ -538,16 +553,34 @@ def _query(op, env):
     try:
         with warnings.catch_warnings():
             warnings.simplefilter('ignore')
-            if q in ('is_bearable', 'die', 'decor_call'):
+            if q in ('is_bearable', 'die', 'decor_call', 'th_is_bearable', 'th_die'):
                 try:
                     x = build_obj(op['x'], env)
                 except LookupError:
                     return ['skipped']
+                kw = {}
+                if op.get('conf'):
+                    kw['conf'] = ops.build_conf(QCONFS[op['conf']])
+                ckw = dict(kw)
+                if op.get('pfx') is not None:
+                    kw['exception_prefix'] = op['pfx']
                 if q == 'is_bearable':
-                    return ['ok', door.is_bearable(x, hint)]
-                if q == 'die':
-                    door.die_if_unbearable(x, hint)
-                    return ['ok', None]
+                    return ['ok', door.is_bearable(x, hint, **kw)]
+                if q == 'th_is_bearable':
+                    return ['ok', door.TypeHint(hint).is_bearable(x, **ckw)]
+                if q in ('die', 'th_die'):
+                    try:
+                        if q == 'die':
+                            r = door.die_if_unbearable(x, hint, **kw)
+                        else:
+                            r = door.TypeHint(hint).die_if_unbearable(x, **kw)
+                    except Exception as e:      # noqa
+                        out = ops.exc_outcome(e)[:3]
+                        if out[2] == 'violation' or isinstance(e, ValueError):
+                            # the message of a violation starts with the prefix asked for
+                            out = out + [str(e).lower().startswith((op.get('pfx') if op.get('pfx') is not None else 'die_if_unbearable() ').lower())]
+                        return out
+                    return ['ok', r]
                 g = {'__name__': MODNAME, 'H': hint}
                 ns = {}
                 # decorated in the user module so that forward references resolve against it
@@ -557,7 +590,7 @@ def _query(op, env):
                 f = ns['f']
                 f.__module__ = MODNAME
                 f.__annotations__ = {'a': hint}
-                f = beartype(f)
+                f = beartype(conf=ckw['conf'])(f) if ckw else beartype(f)
                 r = f(x)
                 return ['ok', r is x]
             he2 = env['hints'].get(op['h2'])
